@@ -49,6 +49,19 @@ fn main() {
             let h = std::thread::Builder::new().stack_size(1 << 30).spawn(move || cmd_replay(&a)).unwrap();
             h.join().unwrap_or(4)
         }
+        Some("families") => {
+            for c in checks::all() {
+                let q = (c.families)(Tier::Quick);
+                let t = (c.families)(Tier::Thorough);
+                let cell = |v: &Vec<(&'static str, u64)>| v.iter().map(|(f, n)| format!("{} {}", f, n)).collect::<Vec<_>>().join(", ");
+                if c.id == "C19" {
+                    println!("| {} | the families of C01-C07 ({} case indices) | a quarter of their thorough sizes ({} case indices) |", c.id, q.iter().map(|x| x.1).sum::<u64>(), t.iter().map(|x| x.1).sum::<u64>());
+                } else {
+                    println!("| {} | {} | {} |", c.id, cell(&q), cell(&t));
+                }
+            }
+            0
+        }
         Some("list") => {
             for c in checks::all() {
                 println!("{}", c.id);
